@@ -240,6 +240,17 @@ def post_twin(ctx, call):
                 if any(X.proj_residual(u, v) < 1e-9 for u, v in zip(a.array.reshape(n, -1), b.array.reshape(n, -1)) if np.any(u != 0) and np.any(v != 0)):
                     ctx.skip("twin", "coincident operands (degenerate configuration)")
                     return
+    if opname == "harmonic_set" and len(operands) == 3:
+        # precondition: three distinct collinear points (at every position); otherwise what is returned or raised is not specified
+        try:
+            A3 = np.stack(np.broadcast_arrays(*[np.asarray(o.array, dtype=complex) for o in operands]), axis=-2)
+            sv = np.linalg.svd(A3.reshape((-1,) + A3.shape[-2:]), compute_uv=False)
+            if np.any(sv[:, 2] > 1e-9 * sv[:, 0]) or np.any(sv[:, 1] < 1e-6 * sv[:, 0]):
+                ctx.skip("twin", "harmonic_set of points that are not collinear (precondition not met)")
+                return
+        except Exception:
+            ctx.skip("twin", "harmonic_set operands do not broadcast")
+            return
     if opname == "components":
         from geometer.utils import det as _det
 
